@@ -70,7 +70,36 @@ def _sources_digest() -> str:
     return h.hexdigest()
 
 
-def build_and_audit() -> dict:
+def library_modules() -> list[str]:
+    mods = []
+    for root, dirs, files in os.walk(os.path.join(LEAN, "Rbacx")):
+        dirs[:] = sorted(d for d in dirs if d != "Run")
+        for fn in sorted(files):
+            if fn.endswith(".lean") and fn not in ("Generated.lean", "Audit.lean"):
+                rel = os.path.relpath(os.path.join(root, fn), LEAN)[:-5]
+                mods.append(rel.replace(os.sep, "."))
+    return mods
+
+
+def leanchecker(digest: str) -> dict:
+    """thorough tier: replay every library module (model, specs, proofs, property theorems) through `leanchecker`, the toolchain's
+    independent re-checker of compiled .olean files; cached by the digest of the Lean sources"""
+    cache_p = os.path.join(LEAN, ".lake", "leanchecker.json")
+    if os.path.exists(cache_p):
+        c = json.load(open(cache_p))
+        if c.get("digest") == digest and c.get("ok"):
+            return c
+    mods = library_modules()
+    t0 = time.time()
+    p = sh(["lake", "env", "leanchecker"] + mods, cwd=LEAN, timeout=3000)
+    res = {"digest": digest, "ok": p.returncode == 0, "modules": len(mods), "seconds": round(time.time() - t0, 1),
+           "log": (p.stdout + p.stderr)[-1500:] if p.returncode != 0 else ""}
+    if res["ok"]:
+        json.dump(res, open(cache_p, "w"))
+    return res
+
+
+def build_and_audit(tier: str = "quick") -> dict:
     """Regenerate Generated.lean from /repo, `lake build`, forbidden-token grep, axiom audit.
 
     Serialised with a file lock; the audit result is cached by a digest of all Lean sources."""
@@ -92,6 +121,10 @@ def build_and_audit() -> dict:
             if c.get("digest") == digest:
                 c["facts"] = facts
                 c["build_s"] = time.time() - t0
+                if tier == "thorough":
+                    c["leanchecker"] = leanchecker(digest)
+                    if not c["leanchecker"]["ok"]:
+                        return {**c, "ok": False, "stage": "leanchecker", "log": c["leanchecker"]["log"]}
                 return c
         hits = grep_forbidden()
         a = sh(["lake", "env", "lean", "Rbacx/Audit.lean"], cwd=LEAN)
@@ -107,6 +140,10 @@ def build_and_audit() -> dict:
                "build_s": time.time() - t0}
         if res["ok"]:
             json.dump({k: v for k, v in res.items() if k != "facts"}, open(cache_p, "w"))
+        if res["ok"] and tier == "thorough":
+            res["leanchecker"] = leanchecker(digest)
+            if not res["leanchecker"]["ok"]:
+                return {**res, "ok": False, "stage": "leanchecker", "log": res["leanchecker"]["log"]}
         return res
 
 
@@ -209,6 +246,7 @@ class Run:
                 "known_findings_reproduced": self.known,
                 "anchored_files_changed": self.anchored_changed, "search_scale": self.boost,
                 "extracted": audit.get("facts"),
+                "leanchecker": ({k: v for k, v in audit["leanchecker"].items() if k != "log"} if audit.get("leanchecker") else "not run (thorough tier only)"),
                 **self.extra,
             },
             "assumptions": self.assumptions + self.notes,
